@@ -261,6 +261,7 @@ func (dest *Destination) updateConn(addr string) {
 func (dest *Destination) collectRedo(conn *Conn) {
 	bulkData := conn.getRedo()
 	dest.spool.Ingest(bulkData)
+	verifEvent("redo.ingested", dest.Key, conn, len(bulkData))
 	dest.tasks.Done()
 }
 
@@ -284,6 +285,7 @@ func (dest *Destination) relay() {
 		// this op won't succeed as long as the conn is busy processing/flushing
 		case conn.In <- buf:
 			conn.numBuffered.Inc(1)
+			verifEvent("send.ok", dest.Key, conn, buf)
 		default:
 			log.Tracef("dest %s %s nonBlockingSend -> dropping due to slow conn", dest.Key, buf)
 			// TODO check if it was because conn closed
@@ -291,6 +293,7 @@ func (dest *Destination) relay() {
 			// it would probably keep piling up until OOM.  let's just drop the traffic.
 			dest.numDropSlowConn.Inc(1)
 			dest.SlowNow = true
+			verifEvent("send.drop", dest.Key, conn, buf)
 		}
 	}
 
@@ -300,9 +303,11 @@ func (dest *Destination) relay() {
 		select {
 		case dest.spool.InRT <- buf:
 			log.Tracef("dest %s %s nonBlockingSpool -> added to spool", dest.Key, buf)
+			verifEvent("spool.ok", dest.Key, nil, buf)
 		default:
 			log.Tracef("dest %s %s nonBlockingSpool -> dropping due to slow spool", dest.Key, buf)
 			dest.numDropSlowSpool.Inc(1)
+			verifEvent("spool.drop", dest.Key, nil, buf)
 		}
 	}
 
@@ -312,9 +317,11 @@ func (dest *Destination) relay() {
 
 	// this loop/select should never block, we can't hang dest.In or the route & table locks up
 	for {
+		verifEvent("relay.loop", dest.Key, conn)
 		if conn != nil {
 			if !conn.isAlive() {
 				dest.Online = false
+				verifEvent("relay.dead", dest.Key, conn)
 				if dest.Spool {
 					dest.tasks.Add(1)
 					go dest.collectRedo(conn)
@@ -334,7 +341,9 @@ func (dest *Destination) relay() {
 		select {
 		case sig := <-dest.setSignalConnOnline:
 			signalConnOnline = sig
+			verifEvent("relay.signal", dest.Key, conn)
 		case inConnUpdate := <-dest.inConnUpdate:
+			verifEvent("relay.inConnUpdate", dest.Key, conn, inConnUpdate)
 			if inConnUpdate {
 				numConnUpdates += 1
 			} else {
@@ -342,6 +351,7 @@ func (dest *Destination) relay() {
 			}
 		case conn = <-dest.connUpdates:
 			dest.Online = true
+			verifEvent("relay.connUpdate", dest.Key, conn)
 			log.Infof("dest %s new conn online", dest.Key)
 			// new conn? start with a clean slate!
 			dest.SlowLastLoop = false
@@ -350,18 +360,21 @@ func (dest *Destination) relay() {
 				close(signalConnOnline)
 			}
 		case <-ticker.C: // periodically try to bring connection (back) up, if we have to, and no other connect is happening
+			verifEvent("relay.tick", dest.Key, conn, numConnUpdates)
 			if conn == nil && numConnUpdates == 0 {
 				go dest.updateConn(dest.Addr)
 			}
 			dest.SlowLastLoop = dest.SlowNow
 			dest.SlowNow = false
 		case <-dest.flush:
+			verifEvent("relay.flush", dest.Key, conn)
 			if conn != nil {
 				dest.flushErr <- conn.Flush()
 			} else {
 				dest.flushErr <- nil
 			}
 		case <-dest.shutdown:
+			verifEvent("relay.shutdown", dest.Key, conn)
 			log.Infof("dest %v shutting down. flushing and closing conn", dest.Key)
 			if conn != nil {
 				conn.Flush()
@@ -374,8 +387,10 @@ func (dest *Destination) relay() {
 		case buf := <-toUnspool:
 			// we know that conn != nil here because toUnspool is set above
 			log.Tracef("dest %v %s received from spool -> nonBlockingSend", dest.Key, buf)
+			verifEvent("relay.unspool", dest.Key, conn, buf, dest.SlowNow, dest.SlowLastLoop)
 			nonBlockingSend(buf)
 		case buf := <-dest.In:
+			verifEvent("relay.in", dest.Key, conn, buf)
 			if conn != nil {
 				log.Tracef("dest %v %s received from In -> nonBlockingSend", dest.Key, buf)
 				nonBlockingSend(buf)
@@ -385,6 +400,7 @@ func (dest *Destination) relay() {
 			} else {
 				log.Tracef("dest %v %s received from In -> no conn no spool -> drop", dest.Key, buf)
 				dest.numDropNoConnNoSpool.Inc(1)
+				verifEvent("drop.noconn", dest.Key, nil, buf)
 			}
 		}
 	}
